@@ -296,6 +296,21 @@ func c14CheckHistory(w *world, first *worldResult) string {
 				}
 			}
 		}
+		// narrowing holds for every transfer of the history: what the server receives as ACT never offers
+		// binary without a tunnel, nor a protocol above the relay's
+		if r.Params.Relays > 0 {
+			if acts := decodeLinesRaw(r.C2S, "ACT"); len(acts) > 0 {
+				var act transferAction
+				if json.Unmarshal(acts[len(acts)-1], &act) == nil {
+					if act.SupportBinary && !act.TunnelConnected {
+						return label + ": the ACT that reached the server through the relay offers binary mode without a tunnel"
+					}
+					if act.Protocol > kProtocolVersion {
+						return fmt.Sprintf("%s: the ACT that reached the server through the relay carries protocol %d", label, act.Protocol)
+					}
+				}
+			}
+		}
 		said := serverSaid(r.SrvStdout)
 		ok := r.SrvErr == "" && strings.HasPrefix(said, "Saved ") && strings.HasPrefix(r.ClientExit, "Saved ")
 		switch kind {
@@ -378,7 +393,7 @@ func c14Histories(tier string) []wParams {
 			for _, relays := range []int{1, 2} {
 				for _, final := range []wParams{{Dir: "up", Tree: "small3", ServerNoListen: true}, {Dir: "down", Tree: "small3"}} {
 					first := a
-					first.Tunnel, first.Relays, first.Probe, first.Timeout = true, relays, true, 3
+					first.Tunnel, first.Binary, first.Relays, first.Probe, first.Timeout = true, true, relays, true, 3
 					first.Then = []wParams{b, final}
 					out = append(out, first)
 				}
